@@ -196,7 +196,7 @@ def gen_program(rng, tier):
 def gen(rng, tier):
     progs, cases = [], []
     hist = collections.Counter()
-    nprog = 160 if tier == "quick" else 1200
+    nprog = scaled(160 if tier == "quick" else 1200)
     tries = 0
     while len(progs) < nprog and tries < nprog * 30:
         tries += 1
@@ -295,6 +295,7 @@ def collect(rep, prop, tier, seed, exe, replay=None):
         configs = ["gcc23", "clang17", "gcc20-emu", "clang17-emu"]
     else:
         configs = ["gcc23", "gcc20", "gcc17", "clang17", "clang20", "gcc20-emu", "clang17-emu", "gcc23-O0", "gcc23-san"]
+    configs = pick_configs(configs)
     if replay:
         rp = json.load(open(replay))
         pr = Prog(rp["call"], rp["program"]); pr.id = rp["case_tokens"][0]; pr.body = rp["body"]
